@@ -8,6 +8,7 @@ package main
 import (
 	"fmt"
 	"go/types"
+	"math/big"
 	"strconv"
 	"strings"
 
@@ -53,7 +54,11 @@ func (g *shapeGen) alts(path string, t types.Type, depth int) []altFn {
 				return v, ""
 			}}
 		case u.Info()&types.IsFloat != 0:
-			return []altFn{func(s *State) (Val, string) { return mkVar(path, SReal), "" }}
+			return []altFn{func(s *State) (Val, string) {
+				v := mkVar(path, SReal)
+				s.assume(float64Facts(v))
+				return v, ""
+			}}
 		case u.Info()&types.IsString != 0:
 			return []altFn{func(s *State) (Val, string) { return atom(path), "" }}
 		}
@@ -88,7 +93,9 @@ func (g *shapeGen) alts(path string, t types.Type, depth int) []altFn {
 					return Iface{Dyn: types.Typ[types.Bool], V: mkVar(path+".bool", SBool)}, path + ":bool"
 				},
 				func(s *State) (Val, string) {
-					return Iface{Dyn: types.Typ[types.Float64], V: mkVar(path+".num", SReal)}, path + ":float64"
+					v := mkVar(path+".num", SReal)
+					s.assume(float64Facts(v))
+					return Iface{Dyn: types.Typ[types.Float64], V: v}, path + ":float64"
 				},
 				func(s *State) (Val, string) {
 					return Iface{Dyn: types.Typ[types.String], V: atom(path + ".str")}, path + ":string"
@@ -201,6 +208,9 @@ func (e *Exec) genShapes(fn *ssa.Function, con *Contract) []*ShapeCase {
 			unsupported("%s: shape PATH = ALT | ALT", sc.Pos)
 		}
 		path := strings.TrimSpace(sc.Raw[:eq])
+		if strings.HasPrefix(path, "result") {
+			continue // result shapes: used at call sites, proved in verify.go
+		}
 		for _, a := range strings.Split(sc.Raw[eq+1:], "|") {
 			g.over[path] = append(g.over[path], strings.TrimSpace(a))
 		}
@@ -247,4 +257,21 @@ func (e *Exec) genShapes(fn *ssa.Function, con *Contract) []*ShapeCase {
 func (e *Exec) customShape(path string, t types.Type, a string) ([]altFn, bool) {
 	_ = fmt.Sprint
 	return nil, false
+}
+
+// float64Facts: true facts about every finite float64 that the real-number
+// model needs: above 2^53 all values are integers, and in [2^53, 2^54) they are
+// even. (The reals admitted remain a superset of the float64 values.)
+func float64Facts(v *T) *T {
+	zero := mkReal(ratInt(0))
+	abs := mkIte(mkCmp(">=", v, zero), v, mkArith("-", zero, v))
+	p := func(k int) *T { return mkReal(new(big.Rat).SetInt(pow2(k))) }
+	k := mkVar("intof!"+v.Name, SInt)
+	mult := func(m int64) *T { return mkEq(&T{Op: "mod", Args: []*T{k, mkInt(m)}, Sort: SInt}, mkInt(0)) }
+	return mkAnd(
+		mkImplies(mkCmp(">=", abs, p(53)), mkEq(toReal(k), v)),
+		mkImplies(mkCmp(">=", abs, p(62)), mult(1024)), // ulp in [2^62, 2^63) is 2^10
+		mkImplies(mkCmp(">=", abs, p(63)), mult(2048)),
+		mkImplies(mkCmp(">=", abs, p(64)), mult(4096)),
+	)
 }
